@@ -1,14 +1,21 @@
 import Zstd.Model.FrameDecoder
+import Zstd.Proofs.DictCopy
 /-
 C09 — dictionary frames decode correctly; a missing dictionary is an error.
 
 Model-level theorems about dictionary selection (`resetCore`, `forceDict`) and about reaching into
-the dictionary content (`DBuf.repeat`).  "No effect on a later frame" is C07 (`reuse_eq_fresh`)
-plus `no_dict_without_id` here.  Parsing of the dictionary file itself goes through the entropy
-table builders (C12/C13); the executable model currently parses dictionaries with the Spec parser.
+the dictionary content (`DBuf.repeat`): the copy equals the RFC's byte-by-byte copy from
+`dict ++ output` for all alignments (`repeat_eq_matchCopy`, `repeat_ok_matchCopy`), the output
+counter used for the "still within the window" test never over-counts (`repeat_totalOut_le`,
+`totalOut_le_produced`), a whole block's sequence execution refines the RFC executor with the
+dictionary (`executeSequences_refines_dict`), and the slice/chunk formulation of the Rust code
+computes the same (`repeat_eq_rust_statements`); helper lemmas in `Zstd/Proofs/DictCopy.lean`.
+"No effect on a later frame" is C07 (`reuse_eq_fresh`) plus `no_dict_without_id` here.  Parsing of
+the dictionary file itself goes through the entropy table builders (C12/C13); the executable model
+currently parses dictionaries with the Spec parser.
 -/
 namespace Zstd.Props.C09
-open Zstd Zstd.Model
+open Zstd Zstd.Model Zstd.Proofs.DictCopy
 
 /-- whenever `reset` replaces the state, it is the fresh state of that header with the dictionary
 choice applied -/
@@ -135,6 +142,306 @@ theorem repeat_all_from_dict_size (b b' : DBuf) (offset ml : Nat)
   injection h with h; subst h
   simp
   omega
+
+/-! ### reaching into the dictionary = the RFC copy from `dict ++ output`
+
+`Spec.matchCopy dict n offset out` is the RFC's byte-by-byte copy of `n` bytes starting `offset`
+bytes back in the virtual history `dict ++ out`.  `DBuf.repeat` mirrors what the code does instead:
+`extend_from_within` / `repeat_in_chunks` inside the buffer, a slice of the dictionary, or — when
+the match starts in the dictionary and runs into the output — the dictionary tail followed by
+`self.repeat(self.buffer.len(), rest)`.  The theorems below hold for ALL alignments: any buffered
+content, any dictionary, any offset ≥ 1, any match length (overlapping `offset < ml` included). -/
+
+/-- Whenever the RFC copy is defined, and the code's "output still within the window" test lets a
+dictionary reach-back through, the model accepts and appends exactly the RFC bytes; dictionary,
+window and hasher input are untouched.
+
+`hml`: the call site (`execute_sequences`) calls `repeat` only for `ml > 0`.  For `ml = 0` the RFC
+copy is the identity for every offset, whereas `repeat offset 0` still range-checks the offset
+(see `repeat_zero_len_checks_offset`); the guarded call is covered by `seqCopy_eq_matchCopy`. -/
+theorem repeat_eq_matchCopy (b : DBuf) (offset ml : Nat) (out' : Array Nat)
+    (hpos : 0 < offset) (hml : 0 < ml ∨ offset ≤ b.content.size + b.dict.size)
+    (h : Spec.matchCopy b.dict ml offset b.content = some out')
+    (hw : offset > b.content.size → b.totalOut ≤ b.window) :
+    ∃ b', b.repeat offset ml = .ok b' ∧ b'.content = out' ∧ b'.dict = b.dict ∧
+      b'.window = b.window ∧ b'.hashed = b.hashed :=
+  Zstd.Proofs.DictCopy.repeat_eq_matchCopy b offset ml out' hpos hml h hw
+
+/-- non-vacuity, straddling and overlapping at once: dictionary `1 2 3 4 5`, one byte `9` produced,
+offset 3 reaches 2 bytes into the dictionary, 6 bytes copied: `4 5` from the dictionary, then
+`9 4 5 9` from the output (the last byte re-reads a byte this very copy wrote) -/
+example :
+    (0 < 3) ∧ (0 < 6 ∨ 3 ≤ (#[9] : Array Nat).size + (#[1, 2, 3, 4, 5] : Array Nat).size) ∧
+    Spec.matchCopy #[1, 2, 3, 4, 5] 6 3 #[9] = some #[9, 4, 5, 9, 4, 5, 9] ∧
+    (3 > (#[9] : Array Nat).size → 1 ≤ 1024) ∧
+    (match ({ content := #[9], dict := #[1, 2, 3, 4, 5], window := 1024, totalOut := 1 } : DBuf).repeat 3 6 with
+     | .ok b' => b'.content == #[9, 4, 5, 9, 4, 5, 9] && b'.totalOut == 7
+     | .error _ => false) = true := by decide
+
+/-- the same for the call exactly as `execute_sequences` makes it (`if seq.ml > 0 { repeat }`):
+no condition on the match length -/
+theorem seqCopy_eq_matchCopy (b : DBuf) (offset ml : Nat) (out' : Array Nat)
+    (hpos : 0 < offset)
+    (h : Spec.matchCopy b.dict ml offset b.content = some out')
+    (hw : offset > b.content.size → b.totalOut ≤ b.window) :
+    ∃ b', (if ml > 0 then b.repeat offset ml else .ok b) = .ok b' ∧ b'.content = out' ∧
+      b'.dict = b.dict ∧ b'.window = b.window ∧ b'.hashed = b.hashed :=
+  Zstd.Proofs.DictCopy.seqCopy_eq_matchCopy b offset ml out' hpos h hw
+
+/-- why `hml` is there: a zero-length `repeat` with an offset beyond dictionary + output is an
+error in the code (`NotEnoughBytesInDictionary`) although nothing would be copied -/
+theorem repeat_zero_len_checks_offset :
+    (∃ b : DBuf, b.dict = #[1] ∧ b.content = #[] ∧ b.totalOut ≤ b.window ∧
+      b.repeat 5 0 = .error .execNotEnoughDict ∧ Spec.matchCopy b.dict 0 5 b.content = some #[]) :=
+  ⟨{ dict := #[1] }, rfl, rfl, Nat.le_refl _, rfl, rfl⟩
+
+/-- Converse (soundness of acceptance): whenever the model accepts a copy, the bytes it appended
+are exactly the RFC copy from `dict ++ content` — in particular the RFC copy is defined, i.e. the
+model never reads outside `dict ++ content`. -/
+theorem repeat_ok_matchCopy (b b' : DBuf) (offset ml : Nat)
+    (h : b.repeat offset ml = .ok b') (hpos : 0 < offset) :
+    Spec.matchCopy b.dict ml offset b.content = some b'.content :=
+  Zstd.Proofs.DictCopy.repeat_ok_matchCopy b b' offset ml h hpos
+
+/-- an accepted copy appends exactly `ml` bytes and leaves the old content in place -/
+theorem repeat_size (b b' : DBuf) (offset ml : Nat) (h : b.repeat offset ml = .ok b') :
+    b'.content.size = b.content.size + ml :=
+  Zstd.Proofs.DictCopy.repeat_size b b' offset ml h
+
+theorem repeat_keeps_prefix (b b' : DBuf) (offset ml : Nat)
+    (h : b.repeat offset ml = .ok b') (hpos : 0 < offset) :
+    b'.content.extract 0 b.content.size = b.content :=
+  matchCopy_prefix _ _ _ _ _ (Zstd.Proofs.DictCopy.repeat_ok_matchCopy b b' offset ml h hpos)
+
+/-- exactly when the model accepts: the offset stays inside `dict ++ content`, and the dictionary
+is touched only while the output counter is within the window.  (Sharpens `offset_beyond_rejected`
+and `dict_out_of_reach_after_window` to an equivalence.) -/
+theorem repeat_accepts_iff (b : DBuf) (offset ml : Nat) :
+    (∃ b', b.repeat offset ml = .ok b') ↔
+      (offset > b.content.size → b.totalOut ≤ b.window ∧ offset ≤ b.content.size + b.dict.size) :=
+  repeat_isOk_iff b offset ml
+
+/-- the three shapes of an accepted copy, with the continuation offset of the straddling case made
+explicit: after the dictionary tail has been appended the buffer is exactly `offset` bytes long, so
+the code's `self.repeat(self.buffer.len(), rest)` continues at the ORIGINAL offset and its
+"empty buffer, offset 0" corner (which would not terminate in `repeat_in_chunks`) is unreachable -/
+theorem repeat_shape (b b' : DBuf) (offset ml : Nat) (h : b.repeat offset ml = .ok b') :
+    (offset ≤ b.content.size ∧ b'.content = copyWithin ml offset b.content) ∨
+    (b.content.size + ml ≤ offset ∧
+      b'.content = b.content ++ b.dict.extract (b.dict.size - (offset - b.content.size))
+        (b.dict.size - (offset - b.content.size) + ml)) ∨
+    (b.content.size < offset ∧ offset < b.content.size + ml ∧
+      (b.content ++ b.dict.extract (b.dict.size - (offset - b.content.size)) b.dict.size).size = offset ∧
+      b'.content = copyWithin (ml - (offset - b.content.size)) offset
+        (b.content ++ b.dict.extract (b.dict.size - (offset - b.content.size)) b.dict.size)) := by
+  rw [repeat_eq] at h
+  split at h
+  · rename_i h1
+    split at h
+    · split at h
+      · cases h
+      · rename_i h3
+        split at h
+        · rename_i h4
+          injection h with h; subst h
+          refine .inr (.inr ⟨h1, by omega, ?_, rfl⟩)
+          rw [Array.size_append, dict_tail_size b.dict _ (by omega)]; omega
+        · injection h with h; subst h
+          exact .inr (.inl ⟨by omega, rfl⟩)
+    · cases h
+  · injection h with h; subst h
+    exact .inl ⟨by omega, rfl⟩
+
+/-! ### the output counter never over-counts
+
+The code decides "is the output still within the window, so that the dictionary is reachable?" by
+`total_output_counter <= window_size` (`DBuf.totalOut ≤ window`).  The counter is advanced by
+`push` (literals) and by `repeat` — except when a copy lies entirely in the dictionary — and NOT by
+Raw/RLE blocks.  It can therefore lag behind the number of bytes the frame has really produced,
+which is `hashed.size + content.size` (bytes drained so far + bytes still buffered), but it can
+never run ahead of it.
+
+What this means for valid frames: the RFC (`Spec.execSequences`) allows a match to reach into the
+dictionary only while the real output is within the window.  Since `totalOut ≤ real output`, the
+code's test `totalOut ≤ window` passes whenever the RFC's does: the window test never rejects a
+copy the RFC allows (`dict_copy_of_valid_frame`), and by `repeat_eq_matchCopy` the bytes are the
+RFC's.  The price of the lag is leniency only: after Raw/RLE blocks (or all-dictionary copies) the
+code may still accept a dictionary reach-back that the RFC forbids because the real output has
+already left the window; such a frame is invalid, and `repeat_ok_matchCopy` still pins down what
+is copied. -/
+
+/-- `push` counts exactly what it appends -/
+theorem push_totalOut (b : DBuf) (data : Array Nat) :
+    (b.push data).totalOut = b.totalOut + data.size ∧
+    (b.push data).content.size = b.content.size + data.size ∧
+    (b.push data).hashed = b.hashed := by
+  simp [DBuf.push]
+
+/-- `repeat` counts at most what it appends (`ml` bytes), never decreases the counter, and counts
+less than `ml` only for a copy lying entirely inside the dictionary (where the code does not
+advance the counter at all) -/
+theorem repeat_totalOut_le (b b' : DBuf) (offset ml : Nat) (h : b.repeat offset ml = .ok b') :
+    b'.totalOut ≤ b.totalOut + ml ∧ b.totalOut ≤ b'.totalOut ∧
+    b'.totalOut - b.totalOut ≤ b'.content.size - b.content.size ∧
+    (b'.totalOut < b.totalOut + ml → b'.totalOut = b.totalOut ∧ b.content.size + ml ≤ offset) := by
+  have hs := Zstd.Proofs.DictCopy.repeat_size b b' offset ml h
+  obtain ⟨_, _, _, ht⟩ := repeat_frame b b' offset ml h
+  omega
+
+/-- the invariant: in every buffer state reachable from `reset` by `push`, accepted `repeat`s,
+uncounted appends (Raw/RLE blocks) and drains, the counter is at most the real output so far -/
+theorem totalOut_le_produced :
+    (∀ (b : DBuf) (w : Nat), (b.reset w).totalOut ≤ (b.reset w).hashed.size + (b.reset w).content.size) ∧
+    (∀ (b : DBuf) (data : Array Nat), b.totalOut ≤ b.hashed.size + b.content.size →
+      (b.push data).totalOut ≤ (b.push data).hashed.size + (b.push data).content.size) ∧
+    (∀ (b b' : DBuf) (offset ml : Nat), b.repeat offset ml = .ok b' →
+      b.totalOut ≤ b.hashed.size + b.content.size → b'.totalOut ≤ b'.hashed.size + b'.content.size) ∧
+    (∀ (b : DBuf) (data : Array Nat), b.totalOut ≤ b.hashed.size + b.content.size →
+      b.totalOut ≤ b.hashed.size + (b.content ++ data).size) ∧
+    (∀ (b : DBuf) (n : Nat), b.totalOut ≤ b.hashed.size + b.content.size →
+      (b.take n).2.totalOut ≤ (b.take n).2.hashed.size + (b.take n).2.content.size) :=
+  ⟨counterOk_reset, counterOk_push, counterOk_repeat,
+   fun b data h => counterOk_append b data h, counterOk_take⟩
+
+/-- … and through the execution of a whole block's sequences (error paths included) -/
+theorem totalOut_le_produced_executeSequences (seqs : List Spec.Seq) (lits : List Nat)
+    (h : Nat × Nat × Nat) (seqSum : Nat) (b : DBuf)
+    (hb : b.totalOut ≤ b.hashed.size + b.content.size) :
+    let b' := (executeSequences seqs lits h seqSum b).1.1
+    b'.totalOut ≤ b'.hashed.size + b'.content.size :=
+  counterOk_executeSequences seqs lits h seqSum b hb
+
+/-- consequence for valid frames: in a state where the counter does not over-count, while the
+real output (`hashed.size + content.size`) is within the window — the RFC's condition for reaching
+into the dictionary — every copy the RFC defines is accepted and yields the RFC's bytes -/
+theorem dict_copy_of_valid_frame (b : DBuf) (offset ml : Nat) (out' : Array Nat)
+    (hinv : b.totalOut ≤ b.hashed.size + b.content.size)
+    (hwin : b.hashed.size + b.content.size ≤ b.window)
+    (hpos : 0 < offset)
+    (h : Spec.matchCopy b.dict ml offset b.content = some out') :
+    ∃ b', (if ml > 0 then b.repeat offset ml else .ok b) = .ok b' ∧ b'.content = out' ∧
+      b'.totalOut ≤ b'.hashed.size + b'.content.size := by
+  obtain ⟨b', hb', hc, _, _, hh⟩ := seqCopy_eq_matchCopy b offset ml out' hpos h (fun _ => by omega)
+  refine ⟨b', hb', hc, ?_⟩
+  split at hb'
+  · exact counterOk_repeat b b' offset ml hb' hinv
+  · injection hb' with hb'; subst hb'; exact hinv
+
+/-- non-vacuity of the lag: an all-dictionary copy is accepted without advancing the counter -/
+example :
+    (match ({ content := #[9], dict := #[1, 2, 3, 4, 5], window := 8, totalOut := 1 } : DBuf).repeat 5 2 with
+     | .ok b' => b'.content == #[9, 2, 3] && b'.totalOut == 1
+     | .error _ => false) = true := by decide
+
+/-! ### a whole block of sequences against the RFC executor, dictionary included
+
+`Spec.execSequences window dict seqs lits hist out` is §3.1.1.4 on the whole output `out` of the
+frame so far, with the RFC's admissibility tests: an offset beyond the output may reach into the
+dictionary only while the output is within the window and only as far as the dictionary goes; an
+offset inside the output must be within the window.  The model's buffer holds only the undrained
+part: the whole output is `hashed ++ content`.  Two invariants of the buffer are needed, both
+established by `reset` and kept by every operation of a frame that is still being decoded:
+the counter does not over-count (above), and enough history is retained
+(`min window (hashed.size + content.size) ≤ content.size`, i.e. a drain never cuts into the last
+`window` bytes: `invariants_reset`, `invariants_drain_to_window`). -/
+
+/-- Whenever the RFC executor accepts a block's sequences, the model's `execute_sequences`
+accepts, appends exactly the same bytes (dictionary reach-backs at every alignment included) and
+leaves the same offset history; both invariants are kept, so the statement chains over the blocks
+of a frame.  `hov`: decoded sequences carry offset values ≥ 1 (C03 `decodeSeqLoop_ov_pos`).
+`hsum`: the code's block-size guard; for `seqSum = 0` it follows from the RFC's check on the
+block's regenerated size (`Spec.decodeCompressedBlock`: growth ≤ min window 128 KiB). -/
+theorem executeSequences_refines_dict (window : Nat) (dict : Array Nat)
+    (seqs : List Spec.Seq) (lits : List Nat) (hist h' : Spec.OffHist) (out out' : Array Nat)
+    (seqSum : Nat) (b : DBuf)
+    (hs : Spec.execSequences window dict seqs lits hist out = some (out', h'))
+    (hov : ∀ s ∈ seqs, s.ov ≥ 1)
+    (hd : b.dict = dict) (hw : b.window = window) (hout : b.hashed ++ b.content = out)
+    (hinv : b.totalOut ≤ b.hashed.size + b.content.size)
+    (hret : min b.window (b.hashed.size + b.content.size) ≤ b.content.size)
+    (hsum : seqSum + (out'.size - out.size) ≤ Gen.maxBlockSize) :
+    ∃ b', executeSequences seqs lits (hist.r1, hist.r2, hist.r3) seqSum b
+            = ((b', (h'.r1, h'.r2, h'.r3)), .ok ()) ∧
+      b'.hashed = b.hashed ∧ b.hashed ++ b'.content = out' ∧ b'.dict = dict ∧ b'.window = window ∧
+      b'.totalOut ≤ b'.hashed.size + b'.content.size ∧
+      min b'.window (b'.hashed.size + b'.content.size) ≤ b'.content.size :=
+  executeSequences_refines window dict seqs lits hist out out' h' seqSum b hs hov hd hw hout hinv hret hsum
+
+/-- the RFC's block-size constant is the code's -/
+theorem blockMaxSize_eq : Gen.maxBlockSize = Spec.blockMaxSize := by decide
+
+/-- non-vacuity: one sequence (1 literal, offset value 6 = offset 3, match length 6) on a fresh
+buffer with dictionary `1 2 3 4 5`: the RFC executor accepts, and the model produces the same -/
+example :
+    Spec.execSequences 1024 #[1, 2, 3, 4, 5] [⟨1, 6, 6⟩] [9] ⟨1, 4, 8⟩ #[]
+      = some (#[9, 4, 5, 9, 4, 5, 9], ⟨3, 1, 4⟩) ∧
+    (match executeSequences [⟨1, 6, 6⟩] [9] (1, 4, 8) 0
+        ({ dict := #[1, 2, 3, 4, 5], window := 1024 } : DBuf) with
+     | ((b', h), .ok ()) => b'.content == #[9, 4, 5, 9, 4, 5, 9] && h == (3, 1, 4) && b'.totalOut == 7
+     | _ => false) = true := by decide
+
+/-- both invariants hold after `reset` (and selecting a dictionary does not touch them) -/
+theorem invariants_reset (b : DBuf) (w : Nat) (dict : Array Nat) :
+    let b0 := { b.reset w with dict := dict }
+    b0.totalOut ≤ b0.hashed.size + b0.content.size ∧
+    min b0.window (b0.hashed.size + b0.content.size) ≤ b0.content.size := by
+  simp [DBuf.reset]
+
+/-- … and after the only drain available while a frame is being decoded: down to the window
+(`can_drain_to_window_size` / `drain_to_window_size`, `read`, `collect_to_writer`) or less -/
+theorem invariants_drain_to_window (b : DBuf) (n k : Nat)
+    (hn : b.canDrainToWindow = some n) (hk : k ≤ n)
+    (hinv : b.totalOut ≤ b.hashed.size + b.content.size) :
+    let b' := (b.take k).2
+    b'.totalOut ≤ b'.hashed.size + b'.content.size ∧
+    min b'.window (b'.hashed.size + b'.content.size) ≤ b'.content.size ∧
+    b'.hashed ++ b'.content = b.hashed ++ b.content := by
+  have hn' : k + b.window ≤ b.content.size := by
+    unfold DBuf.canDrainToWindow at hn
+    split at hn
+    · injection hn with hn; omega
+    · cases hn
+  refine ⟨counterOk_take b k hinv, retained_take b k hn', ?_⟩
+  simp only [DBuf.take, Array.append_assoc]
+  congr 1
+  rw [Array.extract_append_extract]
+  simp only [Nat.zero_min, Array.extract_eq_self_iff]
+  exact .inr ⟨trivial, Nat.le_max_right _ _⟩
+
+/-- every block — Raw, RLE or Compressed, accepted or rejected half-way — leaves dictionary,
+window and hasher input alone and keeps both invariants; together with `invariants_reset` and
+`invariants_drain_to_window` they hold in every state `decode_blocks` can reach, which is what
+`executeSequences_refines_dict` asks of the buffer at the start of each block -/
+theorem decodeOneBlock_keeps_invariants (st : FState) (s : Src)
+    (hinv : st.buf.totalOut ≤ st.buf.hashed.size + st.buf.content.size)
+    (hret : min st.buf.window (st.buf.hashed.size + st.buf.content.size) ≤ st.buf.content.size) :
+    let b' := (decodeOneBlock st s).1.buf
+    b'.dict = st.buf.dict ∧ b'.window = st.buf.window ∧ b'.hashed = st.buf.hashed ∧
+    st.buf.content.size ≤ b'.content.size ∧
+    b'.totalOut ≤ b'.hashed.size + b'.content.size ∧
+    min b'.window (b'.hashed.size + b'.content.size) ≤ b'.content.size :=
+  have g := grows_decodeOneBlock st s
+  ⟨g.dict, g.window, g.hashed, g.size, g.counterOk hinv, g.retained hret⟩
+
+/-! ### the model's copy against the Rust statements
+
+`Zstd.Proofs.DictCopy.repeatRust` spells out `DecodeBuffer::repeat` / `repeat_in_chunks` /
+`repeat_from_dict` statement by statement on the abstract content: slice copies
+(`extend_from_within`), the chunk loop for overlapping copies, the re-entry
+`self.repeat(self.buffer.len(), rest)` of the straddling case. -/
+
+/-- for every buffer state, every offset ≥ 1 and every match length the slice/chunk formulation of
+the Rust code computes exactly `DBuf.repeat` (hence, by the theorems above, the RFC copy) -/
+theorem repeat_eq_rust_statements (b : DBuf) (offset ml : Nat) (hpos : 0 < offset) :
+    repeatRust b offset ml = b.repeat offset ml :=
+  repeatRust_eq b offset ml hpos
+
+/-- non-vacuity: straddling + chunked: 2 bytes from the dictionary, then the re-entered `repeat`
+with offset 3 = buffer length copies 7 bytes in chunks of 3, 3, 1 -/
+example :
+    (match repeatRust { content := #[9], dict := #[1, 2, 3, 4, 5], window := 1024, totalOut := 1 } 3 9 with
+     | .ok b' => b'.content == #[9, 4, 5, 9, 4, 5, 9, 4, 5, 9] && b'.totalOut == 10
+     | .error _ => false) = true := by decide
 
 /-- non-vacuity: a frame header naming dictionary 7 on a decoder without dictionaries -/
 example : (match resetCore [] (2 ^ 27) [0x28, 0xB5, 0x2F, 0xFD, 0x01, 0x00, 0x07, 0x01, 0, 0] with
